@@ -2,6 +2,7 @@ package props
 
 import (
 	"fmt"
+	"reflect"
 	"time"
 
 	"github.com/volatiletech/authboss/v3"
@@ -75,14 +76,59 @@ func c09Model(ea time.Duration) func(st *engine.Step) {
 	}
 }
 
+// c09Differential: "fully hidden from everything downstream" as a differential oracle with no
+// hand-written expectation - whatever the request is (a page, a login, a registration, a logout),
+// sending it from an expired session must have exactly the outcome of sending it from a session
+// that holds nothing but the whitelisted keys.
+func c09Differential(st *engine.Step, gap, ea time.Duration) {
+	o := st.Obs
+	wl := map[string]bool{}
+	for _, k := range st.S.Cfg.Whitelist {
+		wl[k] = true
+	}
+	cl := st.Pre.Clone()
+	ses := cl.Browsers[o.Req.Browser].Session
+	for k := range ses {
+		if !wl[k] {
+			delete(ses, k)
+		}
+	}
+	o2 := flows.Exec(st.S, cl, o.Req, "")
+	st.Count(1, "differential:"+o.Req.Tag.Kind)
+	diff := ""
+	switch {
+	case o.Status != o2.Status || o.Location != o2.Location || o.Body != o2.Body:
+		diff = fmt.Sprintf("response %d %q vs %d %q", o.Status, o.Location, o2.Status, o2.Location)
+	case !reflect.DeepEqual(o.SessAfter, o2.SessAfter):
+		diff = fmt.Sprintf("session afterwards %v vs %v", keysOf(o.SessAfter), keysOf(o2.SessAfter))
+		for k, v := range o2.SessAfter {
+			if o.SessAfter[k] != v {
+				diff += fmt.Sprintf(" (key %s: %s vs %s)", k, flows.Label(o.SessAfter[k]), flows.Label(v))
+			}
+		}
+	case !dbEqual(st.Post.DB, cl.DB):
+		diff = "the database afterwards"
+	}
+	if diff != "" {
+		st.Report(engine.Violation{Rule: "C09/expired-session-not-hidden", Attrs: "request=" + o.Req.Tag.Kind,
+			Detail: fmt.Sprintf("%s sent %s after the last activity (ExpireAfter=%s) is not answered as it is from a session holding only the whitelisted keys: %s", st.Act.Name, gap, ea, diff)})
+	}
+}
+
 func c09Monitor(ea time.Duration) func(st *engine.Step) {
 	return func(st *engine.Step) {
 		o := st.Obs
-		if o == nil || o.Req.Tag.Kind != "open" || o.UIDBefore() == "" {
+		if o == nil || o.UIDBefore() == "" {
 			return
 		}
 		last, ok := st.Pre.Truth.Times[c09Last]
 		if !ok {
+			return
+		}
+		if gap := st.Pre.Now.Sub(last); gap > ea && o.Wrote {
+			c09Differential(st, gap, ea)
+		}
+		if o.Req.Tag.Kind != "open" {
 			return
 		}
 		wl := map[string]bool{}
@@ -210,9 +256,9 @@ func c09Scenarios(tier string) []engine.Scenario {
 func init() {
 	engine.Register(&engine.Property{
 		ID: "C09", Level: "model_checking",
-		Rule:        "E1 over login (password, password+TOTP) / request / app-key / logout sequences with clock advances {1s, EA-1s, EA+1s, 3EA}; reference idle clock advanced on the same history; every request from a session with a user is compared with it (what the downstream handler can read, what the response leaves in the jar); classes = live / expired / boundary requests by kind",
+		Rule:        "E1 over login (password, password+TOTP) / request / app-key / logout sequences with clock advances {1s, EA-1s, EA+1s, 3EA}; reference idle clock advanced on the same history; every request from a session with a user is compared with it (what the downstream handler can read, what the response leaves in the jar), and every request from an expired session is compared with the same request sent from a session holding only the whitelisted keys (response, session, database); classes = live / expired / boundary requests by kind",
 		Units:       func(tier string) []engine.Unit { return e1Units(c09Scenarios(tier)) },
-		Need:        []string{"live:open", "expired:open", "boundary:open", "live:put", "expired:put"},
+		Need:        []string{"live:open", "expired:open", "boundary:open", "live:put", "expired:put", "differential:login", "differential:open"},
 		Assumptions: []string{"whole-second clock (the stamp is RFC 3339 with one-second resolution)", "a gap of exactly ExpireAfter is not asserted either way", "only logins that fire EventAuth are in the alphabet (DESIGN.md 7.13)"},
 	})
 }
